@@ -151,6 +151,7 @@ func (vc *VC) run() {
 		vc.params[vc.fi.params[0]] = vc.vals[fn.Params[0]]
 	}
 	vc.initPanicMode(entry)
+	vc.atomicInit(entry)
 	vc.entry = entry.clone()
 	// preconditions
 	if vc.fi != nil {
@@ -601,6 +602,16 @@ func (vc *VC) loopClauseVal(li *LoopInfo, cl *Clause, phiVals map[*ssa.Phi]Val, 
 	if inc := vc.rangeIndexInc(li); inc != nil {
 		env["verif_rangeidx"] = get(inc)
 	}
+	// `rangeseen(k)`: the ghost set of keys a map range loop has produced so far
+	for _, in := range li.header.Instrs {
+		if n, ok := in.(*ssa.Next); ok {
+			if r, ok := n.Iter.(*ssa.Range); ok {
+				if mt, ok := r.X.Type().Underlying().(*types.Map); ok && vc.mapRangeNoInsert(r) {
+					env["verif_rangeseen"] = Val{t: vc.heapGet(st, "iter@seen@"+r.Name(), "(Array "+vc.S.sortOf(mt.Key())+" Bool)"), typ: mt.Key()}
+				}
+			}
+		}
+	}
 	return vc.clauseVal(vc.fi, cl, env, nil, st, vc.entry)
 }
 
@@ -608,6 +619,9 @@ func (vc *VC) markerNames(li *LoopInfo) []string {
 	// the i-th marker argument is the i-th variable name in the overlay source; recover from the callee instance args count
 	fc := vc.fi.fc
 	locals := localNames(vc.fi.decl)
+	if vc.fi.lit != nil {
+		locals = localNames(litAsDecl(vc.fi.lit))
+	}
 	var vars []string
 	seen := map[string]bool{}
 	var clauses []*Clause
